@@ -409,4 +409,12 @@ def plan_c20(seed: int) -> dict:
     if rng.random() < 0.6:
         _stubify(plan, rng)
     _alt_phases(plan, rng)
+    r = rng.random()
+    if r < 0.12:
+        # the last session is killed (its claim file stays behind) ...
+        plan["phases"][-1]["sessions"][0]["end"] = "kill"
+        plan["phases"][-1]["sessions"][0]["hazard_p"] = 0.01
+    if r < 0.2:
+        # ... and/or the table is re-saved without its final line terminator before it is loaded
+        plan["strip_final_newline"] = True
     return plan
